@@ -5,19 +5,22 @@
    heap of backing arrays, addLocation / deleteLocation / lookups as in
    weed/wdclient/vid_map.go, and the update events the receive loop of
    masterclient.go performs (one lock acquisition each; EvReset = the cache
-   replacement after a lost connection).  Reference: plain per-volume lists. *)
+   replacement after a lost connection).  Reference: plain per-volume lists.
+
+   The tree is the REPAIRED one (fix-c35-delete-copies, fix-c35-reconnect-dc,
+   fix-c35-vid-parse); all statements below are full. *)
 From Coq Require Import String List NArith ZArith Bool Permutation.
 From SW Require Import model.VidMap proof.VidMapProofs.
 Import ListNotations.
 Local Open Scope string_scope.
 Local Open Scope list_scope.
 
-(* ---------------- sequential: lookups after any notification sequence ---------------- *)
+(* ---------------- sequential: lookups after any history ---------------- *)
 
-(* FULL over all sequences of add / remove notifications: the lookup returns
-   exactly the reference's current locations of the volume, those of the
-   client's data center first, or not-found. *)
-Theorem c35_sequential_exact : forall d evs v, forallb notification evs = true ->
+(* after ANY sequence of add / remove notifications and lost connections the
+   lookup returns exactly the reference's current locations of the volume, those
+   of the client's data center first, or not-found *)
+Theorem c35_sequential_exact : forall d evs v,
   lookup_locs (run (init d) evs) v = r_lookup d (r_run [] evs) v.
 Proof. exact sequential_exact. Qed.
 Print Assumptions c35_sequential_exact.
@@ -25,7 +28,7 @@ Print Assumptions c35_sequential_exact.
 (* what the reference's lists are, in terms of the history alone: every Url at
    most once; a Url is present exactly when it is "currently added" ([live]: added
    and neither removed nor dropped by a reconnect since), with the record of the
-   notification that added it.  Holds for EVERY history, reconnects included. *)
+   notification that added it *)
 Theorem c35_locations_exact : forall d evs v,
   let ls := view_list (run (init d) evs) v in
   NoDup (map url ls) /\ forall u, find_url u ls = live v u evs.
@@ -46,65 +49,50 @@ Theorem c35_same_dc_first : forall d r v ls, r_lookup d r v = Ok ls ->
 Proof. exact same_dc_first. Qed.
 Print Assumptions c35_same_dc_first.
 
-(* Known finding 1.  With lost connections in the history the statement above is
-   FALSE: tryAllMasters installs newVidMap(""), forgetting the client's data center. *)
-Theorem c35_reconnect_keeps_order_refuted : exists d evs v,
-  lookup_locs (run (init d) evs) v <> r_lookup d (r_run [] evs) v.
-Proof. exact lookup_exact_refuted. Qed.
-Print Assumptions c35_reconnect_keeps_order_refuted.
-
-(* strongest true statements: exact as long as no reconnect happened ... *)
-Theorem c35_reconnect_keeps_order_partial : forall d evs v, has_reset evs = false ->
-  lookup_locs (run (init d) evs) v = r_lookup d (r_run [] evs) v.
-Proof. exact lookup_exact_partial. Qed.
-Print Assumptions c35_reconnect_keeps_order_partial.
-
-(* ... and in every case exact with respect to the data center the cache holds NOW *)
-Theorem c35_lookup_orders_by_current_dc : forall d evs v,
-  let m := run (init d) evs in
-  lookup_locs m v = r_lookup (data_center m) (r_run [] evs) v.
-Proof. exact lookup_is_reference_current_dc. Qed.
-Print Assumptions c35_lookup_orders_by_current_dc.
+(* ordering after reconnects: the data center the cache orders by is the client's,
+   whatever happened *)
+Theorem c35_reconnect_keeps_data_center : forall d evs, data_center (run (init d) evs) = d.
+Proof. exact data_center_kept. Qed.
+Print Assumptions c35_reconnect_keeps_data_center.
 
 (* ---------------- concurrent readers ---------------- *)
 
-(* Known finding 0.  FULL statement "a slice taken with GetLocations at any time
-   and read later, while updates proceed, shows the list of SOME state of the
-   history" is FALSE: deleteLocation compacts the shared backing array in place. *)
-Theorem c35_concurrent_views_refuted : exists d evs1 evs2 v hd,
-  get_locations (run (init d) evs1) v = Some hd /\
-  forall k, view (run (init d) (firstn k (evs1 ++ evs2))) v
-            <> Some (cells (heap (run (init d) (evs1 ++ evs2))) hd).
-Proof. exact snapshot_some_past_state_refuted. Qed.
-Print Assumptions c35_concurrent_views_refuted.
-
-(* strongest true statement: if no update removes a location of that volume while
-   the slice is held ([delete_while_held], decidable), the slice keeps showing
-   exactly the list of the moment it was taken — for every interleaving of the
-   atomic updates that follow. *)
-Theorem c35_concurrent_views_partial : forall d evs1 evs2 v hd,
+(* a slice taken with GetLocations at any time and read later, while updates
+   proceed in any interleaving of their atomic steps, shows the list of SOME state
+   of the history *)
+Theorem c35_concurrent_views : forall d evs1 evs2 v hd,
   get_locations (run (init d) evs1) v = Some hd ->
-  delete_while_held (r_run [] evs1) v evs2 = false ->
+  exists k, k <= length (evs1 ++ evs2) /\
+    view (run (init d) (firstn k (evs1 ++ evs2))) v
+      = Some (cells (heap (run (init d) (evs1 ++ evs2))) hd).
+Proof. exact snapshot_some_past_state. Qed.
+Print Assumptions c35_concurrent_views.
+
+(* precisely: it keeps showing the list of the moment it was taken *)
+Theorem c35_snapshot_stable : forall d evs1 evs2 v hd,
+  get_locations (run (init d) evs1) v = Some hd ->
   cells (heap (run (init d) (evs1 ++ evs2))) hd = cells (heap (run (init d) evs1)) hd.
-Proof. exact snapshot_stable_partial. Qed.
-Print Assumptions c35_concurrent_views_partial.
+Proof. exact snapshot_stable. Qed.
+Print Assumptions c35_snapshot_stable.
 
 (* ---------------- lookup by volume-id string ---------------- *)
 
-(* Known finding 2.  strconv.Atoi followed by uint32(id): a decimal string that
-   is not a volume id at all is answered with another volume's locations. *)
-Theorem c35_lookup_by_string_refuted : exists m s z,
-  atoi s = Some z /\ (z < 0 \/ 4294967296 <= z)%Z /\
-  exists us, lookup_volume_server_url m s = Ok us /\ us <> [].
-Proof. exact lookup_by_string_refuted. Qed.
-Print Assumptions c35_lookup_by_string_refuted.
+(* a string is answered only with the locations of the uint32 volume id it spells *)
+Theorem c35_lookup_by_string : forall m s us, lookup_volume_server_url m s = Ok us ->
+  exists v ls, parse_uint32 s = Some v /\ (v < 4294967296)%N /\
+               lookup_locs m v = Ok ls /\ us = map url ls.
+Proof. exact lookup_by_string. Qed.
+Print Assumptions c35_lookup_by_string.
 
-Theorem c35_lookup_by_string_partial : forall m s z,
-  atoi s = Some z -> (0 <= z < 4294967296)%Z ->
-  lookup_volume_server_url m s =
-    match lookup_locs m (Z.to_N z) with Ok ls => Ok (map url ls) | Err e => Err e end.
-Proof. exact lookup_by_string_partial. Qed.
-Print Assumptions c35_lookup_by_string_partial.
+Theorem c35_lookup_by_string_rejects : forall m s, parse_uint32 s = None ->
+  lookup_volume_server_url m s = Err ErrParse.
+Proof. exact lookup_by_string_rejects. Qed.
+Print Assumptions c35_lookup_by_string_rejects.
+
+Theorem c35_parse_uint32_sound : forall s v, parse_uint32 s = Some v ->
+  s <> "" /\ digits s 0%N = Some v /\ (v < 4294967296)%N.
+Proof. exact parse_uint32_sound. Qed.
+Print Assumptions c35_parse_uint32_sound.
 
 (* ---------------- messages ---------------- *)
 (* a message carrying a leader hint performs no update at all *)
@@ -112,16 +100,15 @@ Theorem c35_leader_hint_ignored : forall g, m_leader g <> "" -> events_of_op (Ms
 Proof. exact leader_hint_ignored. Qed.
 Print Assumptions c35_leader_hint_ignored.
 
-(* non-vacuity: the hypotheses of the partial theorems hold on non-trivial
-   histories, and the witnesses fall inside the triggers *)
+(* non-vacuity / regression: the former witnesses of the three repaired defects *)
 Example c35_example :
-  let evs1 := [EvAdd 1%N locA; EvAdd 1%N locB; EvAdd 2%N locA; EvAdd 1%N locC] in
-  let evs2 := [EvAdd 1%N {| url := "u4"; public_url := ""; dc := "dcB" |}; EvDel 2%N locA; EvDel 1%N {| url := "nope"; public_url := ""; dc := "" |}] in
-  forallb notification (evs1 ++ evs2) = true /\
-  (exists hd, get_locations (run (init dcA) evs1) 1%N = Some hd /\ s_len hd = 3) /\
-  delete_while_held (r_run [] evs1) 1%N evs2 = false /\
-  lookup_locs (run (init dcA) (evs1 ++ evs2)) 1%N
-    = Ok [locC; locA; locB; {| url := "u4"; public_url := ""; dc := "dcB" |}] /\
-  delete_while_held (r_run [] alias_before) 1%N alias_after = true /\
-  has_reset reconnect_witness = true.
+  (* a slice held across a delete still shows what it showed *)
+  (exists hd, get_locations (run (init dcA) alias_before) 1%N = Some hd /\
+     map url (cells (heap (run (init dcA) (alias_before ++ alias_after))) hd) = ["u1"; "u2"; "u3"]) /\
+  map url (view_list (run (init dcA) (alias_before ++ alias_after)) 1%N) = ["u2"; "u3"] /\
+  (* own data center first after a reconnect *)
+  lookup_locs (run (init dcA) reconnect_witness) 1%N = Ok [locA; locB] /\
+  (* an id string that is no uint32 is rejected *)
+  lookup_volume_server_url (run (init dcA) [EvAdd 1%N locA]) "4294967297" = Err ErrParse /\
+  lookup_volume_server_url (run (init dcA) [EvAdd 1%N locA]) "1" = Ok ["u1"].
 Proof. vm_compute. repeat split; try reflexivity. eexists. split; reflexivity. Qed.
